@@ -28,6 +28,6 @@ def jobs(tier):
                       cut=["error", "error_tok", "error_at", "warn_tok"], havoc=["format"], cut_defined=["rehash"], timeout=180, unwind=20, replay=None,
                       sample=f"pointer {'+' if opn == 0 else '-'} scaling incl. VLA rows"))
     for (a0, a1, a2) in ((1, 4, 8), (8, 1, 2), (16, 1, 4), (2, 32, 1)):
-        js.append(Job(name=f"frame-{a0}-{a1}-{a2}", src="frame.c", group="C04.5 frame layout", defs={"A0": str(a0), "A1": str(a1), "A2": str(a2)}, unwind=12,
+        js.append(Job(name=f"frame-{a0}-{a1}-{a2}", src="frame.c", group="C04.5 frame layout", defs={"A0": str(a0), "A1": str(a1), "A2": str(a2)}, unwind=12, unwindset=[f"cg_init.{k}:300" for k in range(4)],
                       bounded="3 locals per function", sample=f"assign_lvar_offsets: three locals with alignments {a0},{a1},{a2}, symbolic sizes", **PL))
     return js
